@@ -25,7 +25,7 @@ pub enum Step {
     Violation(String),
 }
 
-pub trait Machine: Send {
+pub trait Machine {
     fn name(&self) -> String;
     /// Fresh real object(s) + fresh model.
     fn reset(&mut self);
